@@ -100,6 +100,10 @@ def hit_counts(prefix):
                             inc("write-by-reconcile-that-saw-deleting")
                     if e["abs"] == "status:xr" and e["outcome"] == "ok":
                         inc("status:" + x["synced"] + ":" + x["step"] + (":" + x["detail"] if x["detail"] != "none" else ""))
+                    if e["abs"] == "status:xr" and e["applied"] and x["paused"] and seen["got"] and not seen["paused"]:
+                        inc("O1:status-write-onto-paused-XR-by-a-reconcile-that-read-it-unpaused")
+                    if e["abs"] == "status:xr" and e["applied"] and x["del"] and seen["got"] and not seen["del"]:
+                        inc("O1:status-write-onto-deleting-XR-by-a-reconcile-that-read-it-live")
                     if e["outcome"] == "conflict" and not e["injected"]:
                         inc("stale-conflict:" + e["abs"].split(":")[0])
                 if ev == "end":
@@ -111,7 +115,7 @@ def hit_counts(prefix):
                     if e["result"] == "ok" and not e["statusOK"] and seen["got"] and seen["ex"]:
                         inc("end:silent")
                 if ev == "env":
-                    inc("env:" + e["verb"] + (":mid" if e["rec"] > 0 and False else ""))
+                    inc("env:" + e["verb"])
     return dict(sorted(c.items()))
 
 
